@@ -181,7 +181,8 @@ class EventModels(K.ControlModels):
         q = fr.func.qualname if fr.func is not None else ''
         if q.endswith('Event.got_update') and isinstance(it, VSeq):
             ctx = self.ctx
-            live = getattr(it, 'origin', None) is not None
+            org = getattr(it, 'origin', None)
+            live = org is not None and org[0] == 'f'       # (the value of a field read now; a local holding a copy is a snapshot)
             ctx.oblige('loop.fanout.iterates_over_a_snapshot_of_the_listeners', path, B(not live),
                        clause='a listener that unsubscribes itself or another listener during delivery does not stop the '
                               'remaining listeners from receiving that event')
@@ -256,7 +257,7 @@ def unit_event(meth):
                     continue
                 fan = p.heap.get(('g', 'fanout'), ())
                 ctx.oblige('post.delivered_to_every_listener_of_the_snapshot_in_order', p,
-                           B(len(fan) == 1) if len(fan) != 1 else (fan[0].t == cbs0),
+                           (z3.Length(cbs0) == 0 if len(fan) == 0 else B(False)) if len(fan) != 1 else (fan[0].t == cbs0),
                            clause='delivered exactly once, to every listener registered for that event name at that moment')
     return run
 
